@@ -24,6 +24,24 @@ pub fn run_op<G: Rng + Clone>(r: &mut Random<G>, op: &str) -> R<String> {
 			let mut child = r.split();
 			format!("s:{}", child.next_u64())
 		}
+		// children that draw something else than 64-bit words first (they may still own 1..7 buffered bytes)
+		"clone32" => {
+			let mut c = r.clone();
+			let a = c.next_u32();
+			let b = c.next_u32();
+			format!("c:{}:{}", a, b)
+		}
+		"split32" => {
+			let mut child = r.split();
+			format!("s:{}", child.next_u32())
+		}
+		_ if op.starts_with("clonef:") || op.starts_with("splitf:") => {
+			let n: usize = op[7..].parse().map_err(|_| Bad)?;
+			let mut child = if op.starts_with("clonef:") { r.clone() } else { r.split() };
+			let mut buf = vec![0u8; n];
+			child.fill_bytes(&mut buf[..]);
+			format!("{}:{}", if op.starts_with("clonef:") { "cb" } else { "sb" }, hex(&buf))
+		}
 		_ => {
 			let n: usize = op.strip_prefix("fill:").ok_or(Bad)?.parse().map_err(|_| Bad)?;
 			// the destination's alignment is part of the input space: start at a length-dependent offset
